@@ -264,7 +264,7 @@ func (p *Program) runJobsL(fns []*ssa.Function, lemmas []*Contract, cfg SolverCf
 				q.sliced = append(q.sliced, buildSliced(j, o, 5000, 2))
 			}
 			if o.Kind != "pre-sat" {
-				q.nq = buildSingleQ(j, o, cfg.TimeoutMs/2, false, true)
+				q.nq = buildSingleQ(j, o, cfg.TimeoutMs, false, true)
 			}
 			for _, c := range splitCases(j) {
 				q.split = append(q.split, buildSingle(j, o, cfg.TimeoutMs, true, c...))
@@ -313,7 +313,7 @@ func (p *Program) runJobsL(fns []*ssa.Function, lemmas []*Contract, cfg SolverCf
 					secs    float64
 				}
 				ch := make(chan ans, 2)
-				ctx, cancel := context.WithTimeout(context.Background(), time.Duration(cfg.TimeoutMs/2+2000)*time.Millisecond)
+				ctx, cancel := context.WithTimeout(context.Background(), time.Duration(cfg.TimeoutMs+2000)*time.Millisecond)
 				for _, inc := range []bool{false, true} {
 					go func(inc bool) {
 						t0 := time.Now()
